@@ -43,15 +43,17 @@ def constants():
     t += f"/-- `entropy._bits` -/\ndef ENTROPY_BITS : List Nat := {_nat_list(entropy._bits)}\n"
     # bip39: the checksum is one bit per 32 bits of entropy, i.e. len(bytes)//4; the split is bits*32/33
     src = _src(bip39, "_entropy_checksum")
-    if "checksum_bits = len(bytes_entropy) // 4" not in src or "checksum.zfill(256)" not in src \
+    m_div = re.search(r"checksum_bits = len\(bytes_entropy\) // (\d+)\b", src)
+    if not m_div or "checksum.zfill(256)" not in src \
             or "sha256(bytes_entropy).digest()" not in src or "checksum[:checksum_bits]" not in src:
         raise ValueError("bip39._entropy_checksum: unexpected shape")
     src = _src(bip39, "entropy_from_mnemonic")
-    if "bits = int(len(cs_entropy) * 32 / 33)" not in src or "cs_entropy[bits:] != checksum" not in src \
+    m_frac = re.search(r"bits = int\(len\(cs_entropy\) \* (\d+) / (\d+)\)", src)
+    if not m_frac or "cs_entropy[bits:] != checksum" not in src \
             or "_entropy_checksum(cs_entropy[:bits])" not in src:
         raise ValueError("bip39.entropy_from_mnemonic: unexpected shape")
     t += "/-- bip39: checksum bits = entropy bytes // CS_DIV; entropy bits = total * CS_NUM / CS_DEN -/\n"
-    t += "def CS_DIV : Nat := 4\ndef CS_NUM : Nat := 32\ndef CS_DEN : Nat := 33\n"
+    t += f"def CS_DIV : Nat := {int(m_div.group(1))}\ndef CS_NUM : Nat := {int(m_frac.group(1))}\ndef CS_DEN : Nat := {int(m_frac.group(2))}\n"
     it, dk, salt = _kdf(bip39, "seed_from_mnemonic", r"salt = f'(\w+)\{passphrase\}'\.encode\(\)")
     t += f"/-- `bip39.seed_from_mnemonic`: PBKDF2-HMAC-SHA512 iterations, key size, salt prefix \"{salt}\" -/\n"
     t += f"def BIP39_ITERATIONS : Nat := {it}\ndef BIP39_DKSIZE : Nat := {dk}\ndef BIP39_SALT : List Nat := {_nat_list(salt.encode())}\n"
@@ -70,10 +72,11 @@ def constants():
     t += "def MNEMONIC_VERSIONS : List (String × List Nat) := [" + ", ".join(
         f"(\"{k}\", {_nat_list(int(c, 16) for c in v)})" for k, v in vs.items()) + "]\n"
     src = _src(electrum, "_mnemonic_type")
-    if "if mnemonic_type == '2fa' and nwords != 12 and (nwords < 20):" not in src or "return 'old'" not in src:
+    m_2fa = re.search(r"if mnemonic_type == '2fa' and nwords != (\d+) and \(?nwords < (\d+)\)?:", src)
+    if not m_2fa or "return 'old'" not in src:
         raise ValueError("electrum._mnemonic_type: unexpected 2fa word-count rule")
     t += "/-- `electrum._mnemonic_type`: a \"2fa\" prefix counts only at TWOFA_EXACT words or at least TWOFA_MIN -/\n"
-    t += "def TWOFA_EXACT : Nat := 12\ndef TWOFA_MIN : Nat := 20\n"
+    t += f"def TWOFA_EXACT : Nat := {int(m_2fa.group(1))}\ndef TWOFA_MIN : Nat := {int(m_2fa.group(2))}\n"
     t += f"/-- `bip85._HMAC_KEY` = {bip85._HMAC_KEY!r} -/\ndef BIP85_HMAC_KEY : List Nat := {_nat_list(bip85._HMAC_KEY)}\n"
     t += f"def BIP85_PURPOSE : Nat := {int(bip85._PURPOSE)}\n"
     src = _src(bip85, "_entropy_from_der_path")
